@@ -303,7 +303,11 @@ impl<T: TransportParticipantFactory> DomainParticipantFactoryAsync<T> {
                     .min(time_until_stale_participant.unwrap_or(poke_time))
                     .min(time_until_stale_writer_sample.unwrap_or(poke_time))
                     .min(time_until_pending_writer_sample_timeout.unwrap_or(poke_time))
-                    .min(time_until_participant_announcement.unwrap_or(poke_time));
+                    .min(time_until_participant_announcement.unwrap_or(poke_time))
+                    // A duty that is already overdue (the clock moves on between the expiry
+                    // sweep of this iteration and this computation) must not become a negative,
+                    // i.e. after the conversion practically endless, sleep
+                    .max(Duration::new(0, 0));
 
                 match select_future(
                     dcps_receiver.receive(),
